@@ -365,3 +365,41 @@ func (g *Global) typeTagOfErrors() int {
 	g.typeTags[k] = n
 	return n
 }
+
+// ifaceMethod finds the *types.Func of an interface method contract key "pkg.Iface.Method".
+func (g *Global) ifaceMethod(key string) *types.Func {
+	parts := strings.Split(key, ".")
+	if len(parts) != 3 {
+		panic(subsetErr("bad interface method key " + key))
+	}
+	p := g.tpkgs[parts[0]]
+	if p == nil {
+		panic(subsetErr("unknown package in " + key))
+	}
+	obj := p.Scope().Lookup(parts[1])
+	if obj == nil {
+		panic(subsetErr("unknown interface in " + key))
+	}
+	it, ok := obj.Type().Underlying().(*types.Interface)
+	if !ok {
+		panic(subsetErr(key + ": not an interface"))
+	}
+	for i := 0; i < it.NumMethods(); i++ {
+		if it.Method(i).Name() == parts[2] {
+			return it.Method(i)
+		}
+	}
+	panic(subsetErr("unknown method in " + key))
+}
+
+func (g *Global) ifaceSig(key string) *types.Signature {
+	return g.ifaceMethod(key).Type().(*types.Signature)
+}
+
+func (g *Global) ifaceParamName(key string, i int) string {
+	p := g.ifaceSig(key).Params().At(i)
+	if p.Name() == "" {
+		return fmt.Sprintf("arg%d", i)
+	}
+	return p.Name()
+}
